@@ -1,11 +1,30 @@
 #!/usr/bin/env python3
-"""A Variable / Hypothesis / Context outside a Section declares an axiom: refuse it."""
+"""A Variable / Hypothesis / Context outside a Section declares an axiom: refuse it.
+Comments (nested) are removed before scanning."""
 import pathlib, re, sys
 root = pathlib.Path(__file__).resolve().parent.parent / 'coq'
+
+
+def strip_comments(text):
+    out, depth, i = [], 0, 0
+    while i < len(text):
+        if text.startswith('(*', i):
+            depth += 1
+            i += 2
+        elif text.startswith('*)', i) and depth > 0:
+            depth -= 1
+            i += 2
+        else:
+            if depth == 0 or text[i] == '\n':
+                out.append(text[i])
+            i += 1
+    return ''.join(out)
+
+
 bad = 0
 for f in sorted(root.rglob('*.v')):
     depth = 0
-    for i, line in enumerate(f.read_text().splitlines(), 1):
+    for i, line in enumerate(strip_comments(f.read_text()).splitlines(), 1):
         s = line.strip()
         if re.match(r'Section\s+\w+\s*\.', s):
             depth += 1
